@@ -24,6 +24,37 @@ def parse_int_array(text):
     return vals
 
 
+def resolve_int_array(text, files, depth=0):
+    """like parse_int_array, but follows one named constant (`&Self::X_LIMBS`, `Fr::X`) through the given source files
+    when the initialiser holds no literal: a refactor that shares a limb array must not lose the anchor"""
+    try:
+        return parse_int_array(text)
+    except LostAnchor:
+        if depth > 3:
+            raise
+    rhs = text.split('=', 1)[1] if '=' in text else text
+    names = re.findall(r'\b(?:Self|Fq|Fr|Fp)::([A-Z][A-Z0-9_]*)\b', rhs)
+    names = [n for n in names if n not in ("Case3Mod4", "TonelliShanks")]
+    if len(set(names)) != 1:
+        raise LostAnchor("no array literal and no unique named constant in " + text[:80])
+    from vx.extract import src
+    hits = []
+    for fpath in files:
+        try:
+            sf = src(fpath)
+        except (LostAnchor, OSError):
+            continue
+        for it in sf.all_items():
+            if it.kind in ('const', 'static') and it.name == names[0]:
+                hits.append(it)
+            if it.kind == 'impl':
+                hits += [ch for ch in it.children() if ch.kind in ('const', 'static') and ch.name == names[0]]
+    if len(hits) != 1:
+        raise LostAnchor(f"constant {names[0]} referenced by initialiser: {len(hits)} definitions")
+    t = hits[0].text
+    return resolve_int_array(t.split('=', 1)[1] if '=' in t else t, files, depth + 1)
+
+
 def limbs_to_int(limbs, bits=64):
     return sum(v << (bits * i) for i, v in enumerate(limbs))
 
